@@ -128,14 +128,14 @@ Proof.
   intros g e (NF & R & IM) O. destruct (g_done g) eqn:D; [rewrite gstep_done_id by exact D; repeat split; assumption|].
   pose proof (gstep_idle g e D) as S. unfold GI.
   destruct e; cbn [idle_spec okg] in *;
-    try (destruct S as [S1 S2]; unfold idle2 in S1; injection S1 as S1a S1b; rewrite S1a, S1b; repeat split; tauto).
+    try (destruct S as [S1 S2]; unfold idle2 in S1; injection S1 as S1a S1b; rewrite S1a, S1b; repeat split; first [tauto|intros; discriminate]).
   - (* TWait *) cbv zeta in S. destruct S as [S1 S2]. unfold idle2 in S1. injection S1 as S1a S1b. rewrite S1a, S1b.
     cbv zeta in S2.
     assert (NN : (if g_idle_now g then g_idle g + 1 else 0) < 2) by (destruct (g_idle_now g) eqn:IN; [rewrite (IM eq_refl); lia|lia]).
     split; [intros H; destruct (S2 H) as [X|X]; [exact (NF X)|lia]|].
     split; [destruct (g_idle_now g) eqn:IN; [right; rewrite (IM eq_refl); reflexivity|left; reflexivity]|discriminate].
   - (* TRet *) destruct n as [n|]; destruct S as [S1 S2]; unfold idle2 in S1; injection S1 as S1a S1b; rewrite S1a, S1b.
-    + split; [tauto|]. split; [exact R|]. intros X. destruct R as [Z0|O1]; [exact Z0|]. rewrite (O eq_refl O1) in X. discriminate X.
+    + split; [tauto|]. split; [exact R|]. intros X. destruct R as [Z0|O1]; [exact Z0|]. rewrite (O D O1) in X. discriminate X.
     + repeat split; tauto.
   - (* TEnd *) cbv zeta in S. destruct S as [S1 S2]. unfold idle2 in S1. injection S1 as S1a S1b. rewrite S1a, S1b.
     cbv zeta in S2.
@@ -150,9 +150,11 @@ Lemma idle_now_keeps : forall g e, match e with TRet (Some _) _ _ => False | _ =
 Proof.
   intros g e Q H. destruct (g_done g) eqn:D; [rewrite gstep_done_id in H by exact D; split; [exact H|discriminate]|].
   pose proof (gstep_idle g e D) as S.
-  destruct e; cbn [idle_spec is_call] in *; try contradiction;
-    try (destruct S as [S1 _]; unfold idle2 in S1; injection S1 as S1a S1b; rewrite S1a in H; try discriminate H; split; [exact H|tauto]).
-  destruct n; [contradiction|]. destruct S as [S1 _]. unfold idle2 in S1. injection S1 as S1a S1b. rewrite S1a in H. split; [exact H|tauto].
+  destruct e; cbn [idle_spec is_call] in *; try contradiction; cbv zeta in S.
+  all: try (destruct S as [S1 _]; unfold idle2 in S1; injection S1 as S1a S1b; rewrite S1a in H;
+            first [discriminate H | split; [exact H|tauto]]).
+  match goal with o : option Z |- _ => destruct o end; [contradiction|].
+  destruct S as [S1 _]; unfold idle2 in S1; injection S1 as S1a S1b; rewrite S1a in H. split; [exact H|tauto].
 Qed.
 
 (* the boundary turns "idle so far" into the count 1 *)
